@@ -59,7 +59,7 @@ enum opc { OP_LOCK = 1, OP_UNLOCK, OP_RLOCK, OP_RUNLOCK, OP_TRYLOCK, OP_RTRYLOCK
 	   OP_UNLOCK_NW, OP_WR, OP_RD, OP_INC, OP_DEC, OP_CVWAIT, OP_SIGNAL, OP_BROADCAST, OP_AWAIT, OP_MUWAIT,
 	   OP_NOTE_NEW, OP_NOTIFY, OP_IS_NOTIFIED, OP_NOTE_WAIT, OP_NOTE_FREE, OP_NOTE_EXPIRY,
 	   OP_AFTER_BLOCKED, OP_ADVANCE, OP_CTR_NEW, OP_CTR_ADD, OP_CTR_VALUE, OP_CTR_WAIT, OP_CTR_FREE, OP_ONCE, OP_WAITN,
-	   OP_DBG_MU, OP_DBG_MUW, OP_DBG_CV, OP_DBG_CVW, OP_UNREF, OP_YIELD, OP_ASSERT_HELD, OP_RASSERT_HELD, OP_IS_READER,
+	   OP_DBG_MU, OP_DBG_MUW, OP_DBG_CV, OP_DBG_CVW, OP_UNREF, OP_UNREF_HELD, OP_TRYLOCK_SPIN, OP_YIELD, OP_ASSERT_HELD, OP_RASSERT_HELD, OP_IS_READER,
 	   OP_SEM_P, OP_SEM_PD, OP_SEM_V };
 
 struct dl { int kind; int64_t off; };   /* 0 inf, 1 zero, 2 neg, 3 start+off, 4 raw sec/nsec */
@@ -416,9 +416,18 @@ static void run_prog (void *arg) {
 			if (n >= 1 && memchr (buf, 0, n) == NULL) { vf_violation ("debug-buffer", "%s result not NUL-terminated (n=%d)", api, n); }
 			vf_log ("ret %s -", api);
 			break; }
-		case OP_UNREF: {
+		case OP_TRYLOCK_SPIN: { /* poll nsync_mu_trylock until it succeeds (a thread that never blocks on the mutex) */
+			int r = 0; int tries = 0;
+			while (!r && tries++ < 400) {
+				vf_log ("call nsync_mu_trylock mu%d", o->a); in_try[me] = 1; vf_api_enter (); r = nsync_mu_trylock (&mus[o->a]); vf_api_leave (); in_try[me] = 0;
+				if (r) { shadow_acq (o->a, 1); } try_ok[me][o->a] = r; vf_log ("ret nsync_mu_trylock %d", r);
+				if (!r) { vf_sched_note (); }
+			}
+			if (!r) { vf_log ("call nsync_mu_lock mu%d", o->a); vf_api_enter (); nsync_mu_lock (&mus[o->a]); vf_api_leave (); shadow_acq (o->a, 1); vf_log ("ret nsync_mu_lock -"); }
+			break; }
+		case OP_UNREF: case OP_UNREF_HELD: {
 			int last;
-			vf_log ("call nsync_mu_lock mu%d", o->a); vf_api_enter (); nsync_mu_lock (&mus[o->a]); vf_api_leave (); shadow_acq (o->a, 1); vf_log ("ret nsync_mu_lock -");
+			if (o->code == OP_UNREF) { vf_log ("call nsync_mu_lock mu%d", o->a); vf_api_enter (); nsync_mu_lock (&mus[o->a]); vf_api_leave (); shadow_acq (o->a, 1); vf_log ("ret nsync_mu_lock -"); }
 			vars[o->b]--; last = (vars[o->b] == 0); vf_log ("data w x%d %d", o->b, vars[o->b]);
 			vf_log ("call nsync_mu_unlock mu%d", o->a); shadow_rel (o->a, 1); vf_api_enter (); nsync_mu_unlock (&mus[o->a]); vf_api_leave (); vf_log ("ret nsync_mu_unlock -");
 			if (last) { vf_log ("reclaim mu%d", o->a); vf_kill (&mus[o->a]); memset (&mus[o->a], 0xdd, sizeof (mus[o->a])); }
@@ -504,6 +513,8 @@ static int parse_op (char *s, struct op *o) {
 	else if (IS ("dbg_cv")) { o->code = OP_DBG_CV; o->a = A (1, "cv"); o->b = n > 2 ? atoi (tok[2]) : 64; }
 	else if (IS ("dbg_cvw")) { o->code = OP_DBG_CVW; o->a = A (1, "cv"); o->b = n > 2 ? atoi (tok[2]) : 64; }
 	else if (IS ("unref")) { o->code = OP_UNREF; o->a = A (1, "mu"); o->b = A (2, "x"); }
+	else if (IS ("unref_held")) { o->code = OP_UNREF_HELD; o->a = A (1, "mu"); o->b = A (2, "x"); }   /* the caller holds the write lock already */
+	else if (IS ("trylock_spin")) { o->code = OP_TRYLOCK_SPIN; o->a = A (1, "mu"); }
 	else if (IS ("sem_p")) { o->code = OP_SEM_P; o->a = A (1, "s"); }
 	else if (IS ("sem_pd")) { o->code = OP_SEM_PD; o->a = A (1, "s"); parse_dl (n > 2 ? tok[2] : NULL, o); }
 	else if (IS ("sem_v")) { o->code = OP_SEM_V; o->a = A (1, "s"); }
